@@ -8,6 +8,8 @@ def _toks(kind, impl):
 def nontrivial(c, i):
     if c[0] == "c01.stream":
         return any(t == "timeout" for t in i) or any(t == "put" for t in i)
+    if c[0] == "c01.retry":
+        return "x" in i
     # at least one commit notification and at least one batch of >= 2 events or a failed send or a drop
     commits = [t for t in i if t.startswith("fin:") and t.endswith(":3")]
     rich = any(t.startswith("send:") and ("," in t or ":fail:" in t) for t in i) or any(t.startswith("fin:") and t.endswith(":1") for t in i)
@@ -17,6 +19,8 @@ def nontrivial(c, i):
 def classify(c, i):
     if c[0] == "c01.stream":
         return ["cmd=c01.stream", "stream-level: put immediately followed by a heartbeat round"]
+    if c[0] == "c01.retry":
+        return ["cmd=c01.retry", "retry-level: Stop while a failing batch is in its back-off pause"]
     out = ["procs=" + c[1], "workers=" + c[5], "bcount=" + c[4], "pool=" + ("lowmem" if c[3] == "1" else "std"),
            "dq=" + c[7], "chain=" + ("none" if c[10] == "-" else "join" if "j" in c[10] else "verdicts")]
     if any(":fail:" in t for t in i): out.append("send-failed")
@@ -31,13 +35,13 @@ def classify(c, i):
 
 def sig_dq(c, i, m, rec, p):
     """P says the unfinished earlier event had been routed to the dead queue, and a dead queue is configured"""
-    return c[0] != "c01.stream" and c[7] == "1" and p.startswith("fail:dq:")
+    return c[0] not in ("c01.stream", "c01.retry") and c[7] == "1" and p.startswith("fail:dq:")
 
 
 def shrink(case):
     """candidates with fewer events: drop halves, then single events (a case is `cmd 12 params nev (src stream spec)*`)"""
     t = case.split()
-    if t[0] == "c01.stream":
+    if t[0] in ("c01.stream", "c01.retry"):
         return []
     head, n, ev = t[:13], int(t[13]), t[14:]
     evs = [ev[k:k + 3] for k in range(0, len(ev), 3)]
